@@ -102,6 +102,9 @@ class FIXSRC(cccc.Stream):
 
         ng = self.fc["ngroup"]
         nz = self.fc["nintk"]
+        if self.fixSrc.size == 0:
+            # reading: the dimensions are only known now
+            self.fixSrc = np.zeros((self.fc["ninti"], self.fc["nintj"], nz, ng))
         for g in range(ng):
             for z in range(nz):
                 self._rw3DRecord(g, z)
